@@ -18,8 +18,8 @@ import time
 
 ID = 'C18'
 LEVEL = 'model_checking'
-RULE = ('explicit enumeration of ALL histories of length <= depth over 12 (deck, options) items chosen to collide (quick tier: '
-        'length 3 over the nine items built to collide in process state, length 2 for pairs involving the three others; '
+RULE = ('explicit enumeration of ALL histories of length <= depth over 14 (deck, options) items chosen to collide (quick tier: '
+        'length 3 over the nine items built to collide in process state, length 2 for pairs involving the five others; '
         'only maximal histories are run since every step is compared) '
         '(identical cell / surface numbers with different geometry, universe and lattice decks, a deck that '
         'fails midway, the same deck under other options); each history runs in one fresh interpreter and every '
@@ -209,6 +209,33 @@ ITEMS['l'] = ("""deck l: coincident surfaces with different boundary flags, flag
 +22 pz 0.5
 
 m1 13027 1
+""", [])
+ITEMS['m'] = ("""deck m: materials defined in descending order, one cell uses a material that has no card
+1 2 -7.8 -1 imp:n=1
+2 1 -2.7 1 -2 imp:n=1
+3 5 -1.0 2 -3 imp:n=1
+4 0 3 imp:n=0
+
+1 so 1
+2 so 2
+3 so 3
+
+m2 26056 1
+m1 13027 1
+""", [])
+ITEMS['n'] = ("""deck n: the same material numbers as deck m with other contents, in ascending order
+1 1 -1.0 -1 imp:n=1
+2 2 -11.3 1 -2 imp:n=1
+3 5 -19.0 2 -3 imp:n=1
+4 0 3 imp:n=0
+
+1 so 1
+2 so 2
+3 so 3
+
+m1 1001 2 8016 1
+m2 82208 1
+m5 92238 1
 """, [])
 NAMES = sorted(ITEMS)
 
